@@ -420,7 +420,7 @@ func (u *Unit) loopHeapEffects(n ast.Node) (all bool, some map[string]bool) {
 					switch h {
 					case "bytes":
 						some[u.elemHeap(types.Typ[types.Uint8])] = true
-					case "written", "consumed":
+					case "written", "consumed", "ctxdone":
 						some[u.ghostHeap(h)] = true
 					case "all":
 						all = true
@@ -721,6 +721,7 @@ func (u *Unit) execBlock(st *State, stmts []ast.Stmt) *State {
 }
 
 func (u *Unit) exec(st *State, s ast.Stmt) *State {
+	u.curSt = st
 	switch s := s.(type) {
 	case *ast.BlockStmt:
 		return u.execBlock(st, s.List)
@@ -865,6 +866,12 @@ func (u *Unit) exec(st *State, s ast.Stmt) *State {
 		u.havocAllHeaps(st)
 		return st
 	case *ast.DeferStmt:
+		if len(u.inlineStack) > 0 {
+			fr := u.inlineStack[len(u.inlineStack)-1]
+			fr.defers = append(fr.defers, s.Call)
+			st.ghost[fmt.Sprintf("idefer#%p#%d", fr, len(fr.defers)-1)] = "1"
+			return st
+		}
 		u.deferList = append(u.deferList, s.Call)
 		if fl, ok := s.Call.Fun.(*ast.FuncLit); ok {
 			u.eng.noteFuncLit(u, fl)
@@ -1124,7 +1131,7 @@ func (u *Unit) frameGoals(st *State, only map[string]bool) []frameGoal {
 		if mapMods[h] || (only != nil && !only[h]) {
 			continue
 		}
-		if strings.HasPrefix(h, "HG_") && !ghostFrame {
+		if strings.HasPrefix(h, "HG_") && (!ghostFrame || h == "HG_ctxdone") {
 			continue
 		}
 		end := u.heapCur(st, h)
@@ -1810,6 +1817,27 @@ func sortVars(vs []*types.Var) {
 type inlineFrame struct {
 	results []*types.Var
 	rets    []*State
+	defers  []*ast.CallExpr
+}
+
+// runInlineDefers executes the deferred calls registered on this path of an inlined body (LIFO).
+func (u *Unit) runInlineDefers(st *State, fr *inlineFrame) {
+	for i := len(fr.defers) - 1; i >= 0; i-- {
+		if st.ghost[fmt.Sprintf("idefer#%p#%d", fr, i)] == "" {
+			continue
+		}
+		call := fr.defers[i]
+		if _, isLit := call.Fun.(*ast.FuncLit); isLit {
+			u.unsupportedf(call.Pos(), "deferred function literal abstracted (heaps havoced)")
+			u.havocAllHeaps(st)
+			continue
+		}
+		// the frame must not be active while its own defers run
+		saved := u.inlineStack
+		u.inlineStack = u.inlineStack[:len(u.inlineStack)-1]
+		u.eval(st, call)
+		u.inlineStack = saved
+	}
 }
 
 func (u *Unit) inlineReturn(st *State, s *ast.ReturnStmt) {
@@ -1837,6 +1865,7 @@ func (u *Unit) inlineReturn(st *State, s *ast.ReturnStmt) {
 	if u.isDead(st) {
 		return
 	}
+	u.runInlineDefers(st, fr)
 	fr.rets = append(fr.rets, st)
 }
 
@@ -1907,6 +1936,9 @@ func (u *Unit) execLitInline(st *State, e *ast.CallExpr, fl *ast.FuncLit) Term {
 	u.inlineStack = u.inlineStack[:len(u.inlineStack)-1]
 	outs := append([]*State{}, fr.rets...)
 	if end != nil && sig.Results().Len() == 0 {
+		u.inlineStack = append(u.inlineStack, fr)
+		u.runInlineDefers(end, fr)
+		u.inlineStack = u.inlineStack[:len(u.inlineStack)-1]
 		outs = append(outs, end)
 	}
 	merged := u.merge(base, outs)
@@ -1922,5 +1954,88 @@ func (u *Unit) execLitInline(st *State, e *ast.CallExpr, fl *ast.FuncLit) Term {
 	if rs == nil {
 		rs = []Term{}
 	}
+	return resultTerm(rs)
+}
+
+// execDeclInline runs the body of a same-package function declared `inline` at the call site (arguments bound,
+// function-literal arguments stay callable). Used for small private helpers that only make sense with their caller.
+func (u *Unit) execDeclInline(st *State, e *ast.CallExpr, callee *types.Func, fd *ast.FuncDecl, recv *Term, args []Term) Term {
+	sig := callee.Type().(*types.Signature)
+	if len(u.inlineStack) > 4 {
+		return u.abstractExpr(st, e, "inline depth")
+	}
+	if fd.Recv != nil && len(fd.Recv.List) == 1 && len(fd.Recv.List[0].Names) == 1 && recv != nil {
+		if v, ok := u.info.Defs[fd.Recv.List[0].Names[0]].(*types.Var); ok {
+			u.declareVar(st, v, u.coerce(st, *recv, v.Type()))
+		}
+	}
+	k := 0
+	for _, f := range fd.Type.Params.List {
+		for _, n := range f.Names {
+			if v, ok := u.info.Defs[n].(*types.Var); ok && k < len(args) {
+				u.declareVar(st, v, u.coerce(st, args[k], v.Type()))
+				if k < len(e.Args) {
+					if fl, isLit := ast.Unparen(e.Args[k]).(*ast.FuncLit); isLit {
+						u.litOfVar[v] = fl
+					}
+				}
+			}
+			k++
+		}
+		if len(f.Names) == 0 {
+			k++
+		}
+	}
+	fr := &inlineFrame{}
+	if fd.Type.Results != nil {
+		idx := 0
+		for _, f := range fd.Type.Results.List {
+			names := f.Names
+			if len(names) == 0 {
+				names = []*ast.Ident{nil}
+			}
+			for _, n := range names {
+				var rv *types.Var
+				if n != nil {
+					rv, _ = u.info.Defs[n].(*types.Var)
+				}
+				if rv == nil {
+					rv = types.NewVar(fd.Pos(), u.pkg.Types, fmt.Sprintf("inlret%d_%d", len(u.inlineStack), idx), sig.Results().At(idx).Type())
+				}
+				fr.results = append(fr.results, rv)
+				u.declareVar(st, rv, u.zeroOf(rv.Type()))
+				idx++
+			}
+		}
+	}
+	base := st.clone()
+	u.inlineStack = append(u.inlineStack, fr)
+	savedLoops := u.loopStack
+	u.loopStack = nil
+	work := st.clone()
+	end := u.execBlock(work, fd.Body.List)
+	u.loopStack = savedLoops
+	u.inlineStack = u.inlineStack[:len(u.inlineStack)-1]
+	outs := append([]*State{}, fr.rets...)
+	if end != nil && sig.Results().Len() == 0 {
+		u.inlineStack = append(u.inlineStack, fr)
+		u.runInlineDefers(end, fr)
+		u.inlineStack = u.inlineStack[:len(u.inlineStack)-1]
+		outs = append(outs, end)
+	}
+	merged := u.merge(base, outs)
+	if merged == nil {
+		st.assume("false")
+		return resultTerm(u.freshResults(st, sig, "dead"))
+	}
+	*st = *merged
+	var rs []Term
+	for _, rv := range fr.results {
+		rs = append(rs, u.readVar(st, rv, fd.Pos()))
+	}
+	if rs == nil {
+		rs = []Term{}
+	}
+	u.c.note("call of %s executed inline (contract directive `inline`)", callee.Name())
 	return resultTerm(rs)
 }
